@@ -2575,7 +2575,10 @@ impl Channel {
             old_secret,
         )?;
 
-        if let Some(secrets) = self.enforcement_state.counterparty_secrets.as_mut() {
+        // Work on a copy of the secrets, so that a revocation that is refused below leaves
+        // the enforcement state untouched.
+        let mut new_secrets = self.enforcement_state.counterparty_secrets.clone();
+        if let Some(secrets) = new_secrets.as_mut() {
             let backwards_num = INITIAL_COMMITMENT_NUMBER - revoke_num;
             if secrets.provide_secret(backwards_num, old_secret.secret_bytes()).is_err() {
                 error!(
@@ -2594,6 +2597,7 @@ impl Channel {
         }
 
         validator.set_next_counterparty_revoke_num(&mut self.enforcement_state, revoke_num + 1)?;
+        self.enforcement_state.counterparty_secrets = new_secrets;
 
         trace_enforcement_state!(self);
         self.persist()?;
